@@ -172,10 +172,11 @@ type valGen struct {
 	budget int  // remaining optional/element expansions
 	big    bool // allow one very long string
 	errcls bool // allow an ill-formed construct (error class)
+	dflt   *int64
 }
 
 var intPool = func() []int64 {
-	out := []int64{0, 1, -1, 127, 128, -128, -129, 255, 256, 32767, 32768, -32768, -32769}
+	out := []int64{0, 1, -1, 127, 128, -128, -129, 255, 256, 32767, 32768, -32768, -32769, 2, 3, 4, 7, 8, 15, 16, 31, 32, 63, 64, 65, 100, 200, -2, -64}
 	for k := uint(8); k < 63; k += 1 {
 		out = append(out, 1<<k, 1<<k-1, 1<<k+1, -(1 << k), -(1<<k)-1, -(1<<k)+1)
 	}
@@ -185,6 +186,12 @@ var intPool = func() []int64 {
 
 func (g *valGen) int64(name string, bits int) int64 {
 	var x int64
+	if g.dflt != nil && rapid.IntRange(0, 2).Draw(g.t, name+"UseDefault") == 0 {
+		// the value a `default:N` tag names, and its neighbours (encoders are tempted to omit defaults)
+		d := *g.dflt + int64(rapid.IntRange(-1, 1).Draw(g.t, name+"DefaultDelta"))
+		g.dflt = nil
+		return d
+	}
 	if rapid.IntRange(0, 3).Draw(g.t, name+"Rnd") == 0 {
 		x = rapid.Int64().Draw(g.t, name)
 	} else {
@@ -358,7 +365,9 @@ func (g *valGen) fill(v reflect.Value, p rparams, depth int) {
 				g.errcls = false
 				continue // non-optional nil pointer: marshal must report an error
 			}
+			g.dflt = fp.dflt
 			g.fill(fv, fp, depth+1)
+			g.dflt = nil
 		}
 	}
 }
